@@ -142,21 +142,27 @@ def compare_model(ctx, reqs):
 
 
 def eval_line(ann, line):
-    """One whole line: str(record) re-parses to an equal record and renders to itself.
-    -> {"status": "not-accepted" | "accepted", "failures": [...], "rendered": ..., "rerendered": ...}"""
+    """One whole line (it may still carry its terminator: LF, CRLF, CR): str(record) re-parses to an equal record and
+    renders to itself.  -> {"status": "not-accepted" | "accepted", "failures": [...], "rendered": ..., "rerendered": ...}"""
     from maflib.record import MafRecord
     from maflib.validation import ValidationStringency
     sch = impl.scheme_by_annotation(ann)
-    fields = line.split("\t")
+    r1 = MafRecord.from_line(line, scheme=sch, validation_stringency=ValidationStringency.Silent)
+    return eval_parsed(ann, r1, line.split("\t"), {"scheme": ann, "line": line})
+
+
+def eval_parsed(ann, r1, fields, where):
+    """The fixpoint oracle on a record `r1` the library parsed (from_line or a reader) from the field texts `fields`."""
+    from maflib.record import MafRecord
+    from maflib.validation import ValidationStringency
+    sch = impl.scheme_by_annotation(ann)
     e = {"status": "not-accepted", "failures": []}
     fails = e["failures"]
-    r1 = MafRecord.from_line(line, scheme=sch, validation_stringency=ValidationStringency.Silent)
     if r1.validation_errors:
         e["errors"] = [x.tpe.name for x in r1.validation_errors]
         return e
     e["status"] = "accepted"
     s1 = e["rendered"] = str(r1)
-    where = {"scheme": ann, "line": line}
     if len(s1.split("\t")) != len(fields) or "\n" in s1 or "\r" in s1:
         fails.append(dict(where, what="rendered line has a different field count or a line break",
                           kind="separator", rendered=s1))
@@ -178,6 +184,75 @@ def eval_line(ann, line):
         fails.append(dict(where, what="rendering is not a fixpoint", kind="not-fixpoint",
                           rendered=s1, rerendered=e["rerendered"]))
     return e
+
+
+TERMINATORS = ("\n", "\r\n", "\r")
+
+
+def terminated_line_cases(ctx, out, per_scheme):
+    """Accepted lines handed to MafRecord.from_line with their terminator still on (lines of a file opened with
+    newline='' or decoded from bytes): the terminator is not part of the last field, so the rendering has no line break."""
+    rng = ctx.rng("lines-terminated")
+    for ann in impl.builtin_annotations():
+        for _ in range(per_scheme):
+            for term in TERMINATORS:
+                line = "\t".join(colcases.valid_fields(ann, rng, prefer_nonnull=rng.choice([0.1, 0.7, 0.95]))) + term
+                out.evaluations += 1
+                e = eval_line(ann, line)
+                out.distribution["line%r:%s" % (term, e["status"])] += 1
+                if e["status"] == "accepted":
+                    out.nontrivial.add((ann, line))
+                out.failures += e["failures"]
+
+
+def file_preamble(ann):
+    sch = impl.scheme_by_annotation(ann)
+    header = ["#version " + sch.version()] + ([] if sch.is_basic() else ["#annotation.spec " + ann])
+    return header, "\t".join(sch.column_names())
+
+
+def eval_file(case, tmp):
+    """Records the library's readers hand out for a file of lines (case = {"scheme", "lines", "route", "final"}; valid
+    header and column line of the layout; Silent mode): every accepted one is under the fixpoint oracle.
+    -> {"results": [eval_parsed result per record], "failures": [...], "exc": ...}"""
+    ann = case["scheme"]
+    header, col = file_preamble(ann)
+    lines = header + [col] + list(case["lines"])
+    seen = impl.route_lines(case["route"], lines, case.get("final", True))[len(header) + 1:]
+    e = {"results": [], "failures": [], "exc": None}
+    try:
+        reader = impl.open_reader(case["route"], lines, impl.MODES["Silent"], None, tmp, case.get("final", True))
+        recs = list(reader)
+        reader.close()
+    except Exception as x:  # noqa
+        e["exc"] = repr(x)       # reading itself is the concern of C01 / C16
+        return e
+    for j, (rec, text) in enumerate(zip(recs, seen)):
+        r = eval_parsed(ann, rec, text.split("\t"), {"scheme": ann, "file": dict(case), "data_index": j, "text_of_line": text})
+        e["results"].append(r)
+        e["failures"] += r["failures"]
+    return e
+
+
+def file_cases(ctx, out, per_scheme, n_lines):
+    """Accepted lines reaching a record through the readers (list with CRLF terminators, text handle, plain / .gz path
+    with LF or CRLF line ends) instead of MafRecord.from_line."""
+    import tempfile
+    rng = ctx.rng("files")
+    with tempfile.TemporaryDirectory() as tmp:
+        for ann in impl.builtin_annotations():
+            for _ in range(per_scheme):
+                lines = ["\t".join(colcases.valid_fields(ann, rng, prefer_nonnull=rng.choice([0.1, 0.7, 0.95]))) for _ in range(n_lines)]
+                for route in rng.sample(impl.READER_ROUTES, 3):
+                    case = {"scheme": ann, "lines": lines, "route": route, "final": rng.random() < 0.8}
+                    e = eval_file(case, tmp)
+                    out.evaluations += max(1, len(e["results"]))
+                    out.failures += e["failures"]
+                    out.distribution["file-route:" + route] += 1
+                    for r in e["results"]:
+                        out.distribution["file-line:" + r["status"]] += 1
+                        if r["status"] == "accepted":
+                            out.nontrivial.add((ann, route, r["rendered"]))
 
 
 def line_cases(ctx, out, per_scheme):
@@ -316,10 +391,13 @@ def float_laws(ctx, out):
 def run(ctx):
     out = Outcome()
     out.rule = ("every accepted spelling of the type-directed pools (aliases by enum member name, case variants, non-canonical numerals, "
-                "UUID spellings, list encodings) per distinct column class, plus whole accepted lines per layout; non-trivial = accepted by the "
+                "UUID spellings, list encodings) per distinct column class, plus whole accepted lines per layout: given to MafRecord.from_line bare and with "
+                "their terminator (LF, CRLF, CR) still on, and read from files through the reader entry points (lists, text handle, plain/.gz paths, LF/CRLF); non-trivial = accepted by the "
                 "implementation (the property only speaks about accepted texts); distinct = distinct (class, text) or (scheme, line)")
     field_cases(ctx, out, ctx.scale(1, 4))
     line_cases(ctx, out, ctx.scale(6, 60))
+    terminated_line_cases(ctx, out, ctx.scale(1, 6))
+    file_cases(ctx, out, ctx.scale(1, 4), 2)
     custom_mixins(ctx, out)
     float_laws(ctx, out)
     return out
@@ -359,6 +437,24 @@ def replay_case(ctx, failure):
         print("replay C04 float law (%s) of the host on %r: %d failure(s) (CPython only: no implementation or model involved)"
               % (law, f.get("text", ""), len(fails)))
         return fails
+    if "file" in f and "scheme" in f:
+        import tempfile
+        case = f["file"]
+        if not isinstance(case, dict) or any(k not in case for k in ("scheme", "lines", "route")) or \
+                impl.scheme_by_annotation(case["scheme"]) is None or case["route"] not in impl.READER_ROUTES:
+            return None
+        with tempfile.TemporaryDirectory() as tmp:
+            e = eval_file(case, tmp)
+        print("replay C04 file: %d line(s) accepted under %s read through reader route '%s' (Silent), each record rendered, parsed and rendered again "
+              "(implementation only)" % (len(case["lines"]), case["scheme"], case["route"]))
+        if e["exc"]:
+            print("  implementation: reading failed with %s: outside the property" % e["exc"])
+        for j, r in enumerate(e["results"]):
+            print("  record %d: %s" % (j, "not accepted (%s)" % _short(r.get("errors")) if r["status"] != "accepted" else
+                                       "rendered %s; re-rendered %s" % (_short(repr(r["rendered"]), 200),
+                                                                        "identical" if r.get("rerendered") == r["rendered"] else _short(repr(r.get("rerendered", "-")), 200))))
+        print("  oracle: %d failure(s)%s" % (len(e["failures"]), "".join("\n    - " + x["what"] for x in e["failures"])))
+        return e["failures"]
     if "line" in f and "scheme" in f:
         if impl.scheme_by_annotation(f["scheme"]) is None:
             return None
@@ -366,6 +462,9 @@ def replay_case(ctx, failure):
         print("replay C04 line: str(MafRecord.from_line(<%d fields>, scheme=%s, Silent)), parsed and rendered again (implementation only)"
               % (len(f["line"].split("\t")), f["scheme"]))
         print("  line:        %s" % _short(f["line"]))
+        bare = f["line"].rstrip("\r\n")
+        if bare != f["line"]:
+            print("  (the line is given with its terminator %r still on; last field text %r)" % (f["line"][len(bare):], bare.split("\t")[-1]))
         if e["status"] != "accepted":
             print("  implementation: line not accepted (%s): outside the property" % _short(e.get("errors")))
         else:
